@@ -347,6 +347,120 @@ fn layer1(ctx: &Ctx) {
     ctx.validated.fetch_add(c, Ordering::Relaxed);
 }
 
+/// Layer 1c: the sampling-loop interface. Two `Constraint`s cloned from one root (shallow, and deep through
+/// the parser's deep_clone), brought to two histories through compute_mask / commit_token, then each runs
+/// "mask, commit(t), mask": every interleaving of the two 3-call scripts (20), for every pair of histories and
+/// every pick of t. Observations (mask / stop / commit result) must equal those of a private fresh Constraint.
+fn layer1c(ctx: &Ctx) {
+    use llguidance::Constraint;
+    let hdepth = ctx.tier.pick(1, 2);
+    let n = AtomicU64::new(0);
+    let gs = grammars();
+    let drive = |c: &mut Constraint, h: &[u32]| -> bool {
+        for t in h {
+            if c.compute_mask().is_err() {
+                return false;
+            }
+            if c.commit_token(Some(*t)).is_err() {
+                return false;
+            }
+        }
+        true
+    };
+    // one call of the script: 0 / 2 = mask, 1 = commit(t)
+    let step = |c: &mut Constraint, i: usize, t: u32| -> String {
+        if i == 1 {
+            match c.commit_token(Some(t)) {
+                Ok(r) => format!("commit{}:stop={}:{:?}", t, r.stop, r.ff_tokens),
+                Err(_) => format!("commit{}:err", t),
+            }
+        } else {
+            match c.compute_mask() {
+                Ok(r) => format!("mask{:?}:stop={}", r.sample_mask.as_ref().map(mask_to_vec), r.is_stop()),
+                Err(_) => "mask-err".into(),
+            }
+        }
+    };
+    gs.par_iter().for_each(|g| {
+        let f = Factory::new(&g.vocab, &Slices::Default).unwrap();
+        let hs = histories(&f, &g.g, hdepth);
+        let mk = || f.factory.create_parser(g.g.top()).map(Constraint::new);
+        // picks per history: tokens of the mask (<= 3)
+        let picks: Vec<Vec<u32>> = hs
+            .iter()
+            .map(|h| {
+                let Ok(mut c) = mk() else { return vec![] };
+                if !drive(&mut c, h) {
+                    return vec![];
+                }
+                match c.compute_mask() {
+                    Ok(r) if !r.is_stop() => {
+                        let v: Vec<u32> = r.sample_mask.as_ref().map(mask_to_vec).unwrap_or_default();
+                        if v.len() <= 3 { v } else { vec![v[0], v[v.len() / 2], v[v.len() - 1]] }
+                    }
+                    _ => vec![],
+                }
+            })
+            .collect();
+        let private = |h: &[u32], t: u32| -> Vec<String> {
+            let mut c = mk().unwrap();
+            drive(&mut c, h);
+            (0..3).map(|i| step(&mut c, i, t)).collect()
+        };
+        let ils = interleavings(3, 3);
+        for (ia, ha) in hs.iter().enumerate() {
+            for (ib, hb) in hs.iter().enumerate() {
+                for ta in picks[ia].iter() {
+                    for tb in picks[ib].iter() {
+                        if ctx.has_violations() || ctx.over_budget() {
+                            return;
+                        }
+                        crate::watchdog::beat();
+                        let (ea, eb) = (private(ha, *ta), private(hb, *tb));
+                        for deep in [false, true] {
+                            for il in ils.iter() {
+                                let Ok(root) = mk() else { return };
+                                let mut a = root.clone();
+                                let mut b = if deep { Constraint::new(root.parser.deep_clone()) } else { root.clone() };
+                                drive(&mut a, ha);
+                                drive(&mut b, hb);
+                                let (mut pa, mut pb) = (0, 0);
+                                let (mut oa, mut ob) = (vec![], vec![]);
+                                for who in il {
+                                    if *who == 0 {
+                                        oa.push(step(&mut a, pa, *ta));
+                                        pa += 1;
+                                    } else {
+                                        ob.push(step(&mut b, pb, *tb));
+                                        pb += 1;
+                                    }
+                                }
+                                n.fetch_add(1, Ordering::Relaxed);
+                                if oa != ea || ob != eb {
+                                    ctx.violation(Violation {
+                                        check: "constraint_call_interleaving".into(),
+                                        class: "clone-interference".into(),
+                                        signature: format!("constraint|{}|{:?}|{:?}|{}|{}|{:?}|deep={}", g.name, ha, hb, ta, tb, il, deep),
+                                        detail: json!({"kind": "clones", "interface": "Constraint", "grammar": g.g.to_json(), "vocab": g.vocab.to_json(), "history_a": ha, "history_b": hb, "script_a": format!("mask, commit({ta}), mask"), "script_b": format!("mask, commit({tb}), mask"),
+                                            "interleaving": il, "b_is_deep_clone": deep, "a_got": oa, "a_private": ea, "b_got": ob, "b_private": eb}),
+                                    });
+                                    return;
+                                }
+                            }
+                        }
+                        ctx.outcome(fnv(format!("{:?}{:?}", ea, eb).as_bytes()));
+                    }
+                }
+            }
+        }
+    });
+    let c = n.load(Ordering::Relaxed);
+    ctx.count("layer1c_constraint_interleaved_executions", c);
+    ctx.states.fetch_add(c, Ordering::Relaxed);
+    ctx.transitions.fetch_add(c * 6, Ordering::Relaxed);
+    ctx.validated.fetch_add(c, Ordering::Relaxed);
+}
+
 fn layer2(ctx: &Ctx) {
     let bound = ctx.tier.pick(2, 3);
     let cap = ctx.tier.pick(1500u64, 60_000);
@@ -495,6 +609,10 @@ pub fn run(ctx: &Ctx) -> Coverage {
     layer1(ctx);
     ctx.note(format!("layer 1 done at {:.1}s", ctx.elapsed()));
     if !ctx.has_violations() {
+        layer1c(ctx);
+        ctx.note(format!("layer 1c done at {:.1}s", ctx.elapsed()));
+    }
+    if !ctx.has_violations() {
         layer2(ctx);
         ctx.note(format!("layer 2 done at {:.1}s", ctx.elapsed()));
     }
@@ -506,6 +624,6 @@ pub fn run(ctx: &Ctx) -> Coverage {
         ctx.machinery_error("vacuous run: no interleaving executed or no schedule with a pre-emption");
     }
     Coverage::StateGraph {
-        rule: "layer 1: for 7 grammars (lazy lexemes with two routes into an accepting state, shared lexemes, %ignore, & / ~, JSON), every pair of start histories (depth <= 2/3), every pair of legal call scripts of length 2 (thorough: 3) over {mask, validate-all, ff-bytes, commit, rollback}, every interleaving of the two scripts, on clones sharing one lexer (and deep clones), each execution starting from a freshly built root; observations must equal those of a private fresh engine running the script alone. layer 2: real threads under a controlled scheduler whose scheduling points are every lock/unlock of the instrumented mutexes and thread start; all schedules with <= 2 (thorough: 3) pre-emptions, executions run to completion, first schedule replayed to assert determinism. layer 3 (sampled, not deciding): 16 free-running threads per grammar".into(),
+        rule: "layer 1: for 7 grammars (lazy lexemes with two routes into an accepting state, shared lexemes, %ignore, & / ~, JSON), every pair of start histories (depth <= 2/3), every pair of legal call scripts of length 2 (thorough: 3) over {mask, validate-all, ff-bytes, commit, rollback}, every interleaving of the two scripts, on clones sharing one lexer (and deep clones), each execution starting from a freshly built root; observations must equal those of a private fresh engine running the script alone. layer 1c: the same through the sampling-loop interface: two Constraints (shallow clone, and one built on the parser's deep_clone) at every pair of histories, scripts (mask, commit t, mask) for <= 3 picks of t each, all 20 interleavings. layer 2: real threads under a controlled scheduler whose scheduling points are every lock/unlock of the instrumented mutexes and thread start; all schedules with <= 2 (thorough: 3) pre-emptions, executions run to completion, first schedule replayed to assert determinism. layer 3 (sampled, not deciding): 16 free-running threads per grammar".into(),
     }
 }
